@@ -248,7 +248,7 @@ def job_exact_restore(nfr):
     return recs
 
 
-def job_times(nfr, T, ordered=False):
+def job_times(nfr, T, ordered=False, mixed=False):
     """overwrite_times -> slew_times == t_slew; consolidate = row-wise concatenation with absolute times.
     T: one integration count for all frames, or a tuple with one count per frame (frames of a cadence may differ in length)"""
     recs = []
@@ -258,11 +258,14 @@ def job_times(nfr, T, ordered=False):
     taus = [Sym(z3.Real(f'tau{m}')) for m in range(nfr)]
     slew = Sym(z3.Real('t_slew'))
     Ds = [sym_data(Ts[m], Fc, f'D{m}_') for m in range(nfr)]
-    tag = f"C16:times:{(nfr, T)}" + (':ordered' if ordered else '')
+    tag = f"C16:times:{(nfr, T)}" + (':ordered' if ordered else '') + (':mixed-orientation' if mixed else '')
     mk = (lambda *a, **k: CAD.OrderedCadence(*a, order='ABACAD', **k)) if ordered else CAD.Cadence
 
     def run():
-        frames = [make_frame(Ts[m], Fc, True, df, dt, fch1, t_start=taus[m]) for m in range(nfr)]
+        # mixed: every other frame describes the SAME band with the descending flag (fch1 its top channel); the data of a
+        # frame are in increasing frequency whatever the flag, and consolidation stacks them as they are
+        frames = [make_frame(Ts[m], Fc, True, df, dt, fch1, t_start=taus[m]) if not (mixed and m % 2)
+                  else make_frame(Ts[m], Fc, False, df, dt, fch1 + (Fc - 1) * df, t_start=taus[m]) for m in range(nfr)]
         for fr, D in zip(frames, Ds):
             fr.data = D.copy()
         cad0 = mk(frames)
@@ -277,17 +280,17 @@ def job_times(nfr, T, ordered=False):
         leaves = core.explore(run, pre, cap=16)
     recs_all = []
     for li, leaf in enumerate(leaves):
-        recs_all += _times_leaf(leaf, li, len(leaves), nfr, Ts, T, Fc, dt, taus, slew, Ds, pre, tag, ordered)
+        recs_all += _times_leaf(leaf, li, len(leaves), nfr, Ts, T, Fc, dt, taus, slew, Ds, pre, tag, ordered, mixed)
     r, _ = core.check(pre + [z3.Not(z3.Or(*[l.cond() for l in leaves]))], timeout_ms=30000)
     recs_all.append(q(tag + ':split-complete', r, leaves=len(leaves)))
     return recs_all
 
 
-def _times_leaf(leaf, li, nleaves, nfr, Ts, T, Fc, dt, taus, slew, Ds, pre, tag, ordered=False):
+def _times_leaf(leaf, li, nleaves, nfr, Ts, T, Fc, dt, taus, slew, Ds, pre, tag, ordered=False, mixed=False):
     recs = []
     tag = tag if nleaves == 1 else f"{tag}:leaf{li}"
     pre = pre + leaf.pc
-    pl = dict(fn='times', nfr=nfr, T=list(Ts), ordered=ordered)
+    pl = dict(fn='times', nfr=nfr, T=list(Ts), ordered=ordered, mixed=mixed)
     if leaf.kind == 'exc':
         r, m = core.check(pre + leaf.side, timeout_ms=30000)
         recs.append(q(tag + ':noexc', r, detail=repr(leaf.value)))
@@ -430,9 +433,10 @@ def _replay_times(p, tau0, slew=7.5):
     Ts = list(p['T']) if isinstance(p['T'], (list, tuple)) else [p['T']] * nfr
     off = [sum(Ts[:m]) for m in range(nfr + 1)]
     t0s = [tau0 + 100.0 * m * m for m in range(nfr)]
-    frames = [stg.Frame(fchans=3, tchans=Ts[m], df=2.0, dt=4.0, fch1=4096.0, t_start=t0s[m], seed=m) for m in range(nfr)]
+    frames = [stg.Frame(fchans=3, tchans=Ts[m], df=2.0, dt=4.0, fch1=4096.0, t_start=t0s[m], seed=m) if not (p.get('mixed') and m % 2)
+              else stg.Frame(fchans=3, tchans=Ts[m], df=2.0, dt=4.0, fch1=4092.0, ascending=True, t_start=t0s[m], seed=m) for m in range(nfr)]
     for m, fr in enumerate(frames):
-        fr.data = np.full((Ts[m], 3), float(m))
+        fr.data = np.full((Ts[m], 3), float(m)) + 0.125 * np.arange(3)[None, :]        # columns distinguishable
     mk = (lambda *a, **k: stg.OrderedCadence(*a, order='ABACAD', **k)) if p.get('ordered') else stg.Cadence
     cad0 = mk(frames)
     nat = cad0.slew_times
@@ -440,7 +444,7 @@ def _replay_times(p, tau0, slew=7.5):
     msgs = []
     if not np.allclose(nat, [t0s[m] - (t0s[m - 1] + 4.0 * Ts[m - 1]) for m in range(1, nfr)]):
         msgs.append('natural slew times')
-    if cons.data.shape != (off[nfr], 3) or not np.array_equal(cons.data[:, 0], np.concatenate([np.full(Ts[m], float(m)) for m in range(nfr)])):
+    if cons.data.shape != (off[nfr], 3) or not np.array_equal(cons.data, np.concatenate([fr.data for fr in frames], axis=0)):
         msgs.append('consolidated data')
     want_ts = np.concatenate([np.arange(Ts[m]) * 4.0 + t0s[m] for m in range(nfr)])
     if len(cons.ts) != len(want_ts) or not np.allclose(cons.ts, want_ts):
@@ -508,6 +512,7 @@ def main():
         if nfr >= 2:
             jobs.append(('job_times', (nfr, (2, 1, 3, 2)[:nfr])))
             jobs.append(('job_times', (nfr, 2, True)))
+            jobs.append(('job_times', (nfr, 2, False, True)))
     for sel in (('slice', 0, None, 2), ('slice', 1, None, 2), ('index', (0, 2)), ('index', (2, 0)), ('slice', 1, 3, None)):
         jobs.append(('job_overwrite_select', (3 if not ck.thorough else 4, sel)))
     for sel in (('slice', 1, 3), ('slice', 0, 2), ('index', (0, 2)), ('index', (2, 1))):
